@@ -31,6 +31,9 @@ def run(tier):
                            'generated programs stopped with ERROR / CANCELLED / SUCCESS at a random step (some while PAUSED), results still '
                            'in flight delivered afterwards; non-trivial = distinct runs with an acknowledged stop',
                            _nontrivial, strict=True,
+                           model_behaviours=lambda d: ec.model_jobs(
+                               d, tier, sims=[(None, 2 if tier == 'quick' else 8, 2, 0, ('pause', 'stop'))],
+                               probes=[('stop_error_ignored_while_paused', 'chain2', 'hist.stopIgnored', 2, 0, ('pause', 'stop'))]),
                            model_runs=lambda d: ec.catalogue_model_runs(d, tier, ops=2, kinds=('stop',), tag='_s2') +
                            ec.catalogue_model_runs(d, tier, ops=2, kinds=('pause', 'stop'), tag='_ps2'))
 
